@@ -125,7 +125,17 @@ func recomputeAfterMutation(r *Run, rule string, need []string) {
 					}
 					return false
 				}
-				ok, wit := AllPathsAfterHit(in, hit)
+				hitOrFatal := func(x ssa.Instruction) bool {
+					if hit(x) {
+						return true
+					}
+					// an internal (store) error return stops the kernel: nothing further is published
+					if ret, isRet := x.(*ssa.Return); isRet && len(ret.Results) == 1 && strings.Contains(a.sh.Of(ret.Results[0]).String(), "InternalError") {
+						return true
+					}
+					return false
+				}
+				ok, wit := AllPathsAfterHit(in, hitOrFatal)
 				det := "after storing a " + kind + " proof into " + truncate(m, 60)
 				if !ok && wit != nil {
 					det += "; a path reaches the return at " + w.InstrPos(wit) + " without it"
